@@ -156,6 +156,45 @@ static void setup_io() {
   sigaction(SIGALRM, &sa, NULL);
 }
 
+// Bring the process to its steady state before the first scenario: the first operation of a process initialises things that
+// later ones find ready (iostream facet caches on the first formatted output, lazily built tables, allocator arenas), and in
+// 'tsi' builds that shows in the trace.  A batch worker therefore executes a few small operations (all hash modes, echo on)
+// before its first scenario, and so do `replay` and `minimise` - except for scenarios marked "fresh", which are about exactly
+// that first operation and always run in a pristine forked child.  The warm-up is tried in a forked child first: if it does
+// not complete there (the tree under test hangs or crashes on it), it is skipped - the scenarios will say what is wrong.
+static void warm_up_ops() {
+  for (int hm = 0; hm < 3; hm++) {
+    SimFile fin, fenc, fdec;
+    fin.data.assign(40 + hm, (uint8_t)(7 + hm));
+    OpSpec e;
+    e.kind = OP_ENC; e.T = 2; e.cmode = hm + 1; e.hmode = hm; e.echo = true;
+    for (int i = 0; i < 16; i++) e.key[i] = (uint8_t)(i * 11 + hm);
+    e.seedstr = {'w', (uint8_t)('0' + hm)};
+    e.fin = &fin; e.fout = &fenc; e.fsize = fin.data.size();
+    run_op(e);
+    SimFile f2, f3;
+    f2.data = fenc.data; f3.data = fenc.data;
+    OpSpec v = e; v.kind = OP_VER; v.fin = &f2; v.fout = nullptr; v.fsize = f2.data.size();
+    run_op(v);
+    OpSpec d = e; d.kind = OP_DEC; d.fin = &f3; d.fout = &fdec; d.fsize = f3.data.size();
+    run_op(d);
+  }
+}
+static void process_warm_up() {
+  fflush(rep);
+  pid_t pid = fork();
+  if (pid == 0) {
+    simsched::set_fail_handler([](int, const char *) { _exit(9); });
+    alarm(10);
+    signal(SIGALRM, SIG_DFL);
+    warm_up_ops();
+    _exit(0);
+  }
+  int st = 0;
+  if (pid < 0 || waitpid(pid, &st, 0) < 0 || !WIFEXITED(st) || WEXITSTATUS(st) != 0) return;
+  warm_up_ops();
+}
+
 static int wall_limit() { return build_chunk_bytes() >= (1u << 20) ? 600 : 20; }
 
 static Verdict run_scn(const PropDef *p, const Scn &s) {
@@ -252,6 +291,7 @@ static int cmd_batch(int argc, char **argv) {
   double t0 = now_s();
   long viols = 0, done = 0, last = -1, sig_emitted = 0;
   bool wall_stop = false;
+  if (!fresh_only && prop != "C15") process_warm_up();   // C15's worker never executes an operation itself: its forked children must start pristine
   for (long idx = w; idx < plan; idx += N) {
     if (idx <= start) continue;
     if (now_s() - t0 > wall) { wall_stop = true; break; }
@@ -323,6 +363,7 @@ static int cmd_replay(int argc, char **argv) {
   for (int i = 3; i < argc; i++) if (std::string(argv[i]) == "--out" && i + 1 < argc) g_replay_out = argv[++i];
   const PropDef *p = find_prop(s.prop);
   if (!p) { fprintf(stderr, "unknown property %s\n", s.prop.c_str()); return 2; }
+  if (!s.geti("fresh") && s.prop != "C15") process_warm_up();
   Verdict v = run_scn(p, s);
   if (v.violation) {
     emit_violation(s, v.cls, v.sig, v.detail, nullptr, 0);
@@ -351,6 +392,7 @@ static int cmd_minimise(int argc, char **argv) {
   Scn s;
   if (!scn_load(argv[2], s)) return 2;
   std::string cls(s.getb("expect_class").begin(), s.getb("expect_class").end());
+  if (!s.geti("fresh") && s.prop != "C15") process_warm_up();   // the candidates run in forked children of this process
   ChildOut first = run_child(s);
   if (!((first.kind == 1 || first.kind == 3))) { fprintf(rep, "MINIMISE not-reproducible\n"); return 3; }
   if (cls.empty()) cls = first.cls;
